@@ -239,6 +239,83 @@ def histories(rng: random.Random, quick: bool, with_compile: bool) -> List[List[
     return H
 
 
+# ---------------------------------------------------------------------- growth item: torch_nn_modules_to_user_modules
+class _Box(nn.Module):
+    """A user-defined container (its class does not live in torch.nn)."""
+
+
+def to_user_cases(rep: Report, quick: bool) -> None:
+    """spec/ToUser.tla, direction A: TLC enumerates every module DAG with <= 3 (thorough 4) modules -- instances shared
+    between names and between parents included -- with the expected unfolding after the transform; each is built from real
+    torch.nn / user modules and converted by the real helper.  BEYOND the listed properties: reported with rep.beyond."""
+    from collections import OrderedDict
+
+    from unit_scaling.transforms.utils import torch_nn_modules_to_user_modules
+
+    res = common.run_tlc("ToUser_MC", "ToUser_MC_emit.cfg" if quick else "ToUser_MC_4_emit.cfg", workers=1, timeout=900, tag="touser")
+    common.tlc_must_pass(res, "ToUser_MC")
+    rep.add_tlc(res, with_cov=False)
+    r = common.run_tlc("ToUser_MC", "ToUser_MC_noleft.cfg", timeout=300, tag="touserleg")
+    common.tlc_must_fail(r, "ToUser non-vacuity (an instance registered twice leaves a torch.nn module)", "InvNoLeftovers")
+    cases = res.printed("TOUSER")
+    if len(cases) < 50:
+        raise common.MachineryError(f"ToUser_MC emitted only {len(cases)} cases")
+
+    def canon(entries):
+        entries = sorted(([list(p), c, i] for p, c, i in entries), key=lambda e: e[0])
+        ids: Dict[Any, int] = {}
+        return [[p, c, ids.setdefault(i, len(ids))] for p, c, i in entries]
+
+    def kind(m: nn.Module) -> str:
+        if type(m).__name__.startswith("trivial_subclass_"):
+            return "triv"
+        return "torch" if type(m).__module__.startswith(("torch.nn.", "torch.ao.")) else "user"
+
+    bad = 0
+    for c in cases:
+        n = len(c["cls"])
+        inst: Dict[int, nn.Module] = {}
+        for m in range(n, 0, -1):
+            kids = [(k[0], inst[k[1]]) for k in c["kids"][m - 1]]
+            if c["cls"][m - 1] == "torch":
+                inst[m] = nn.Sequential(OrderedDict(kids)) if kids else nn.Linear(2, 2)
+                if len(kids) == 2 and kids[0][1] is kids[1][1]:
+                    pass    # the same instance under two names: allowed by nn.Sequential
+            else:
+                inst[m] = _Box()
+                for name, child in kids:
+                    inst[m].add_module(name, child)
+        before = {m: (mod, mod._modules, mod._parameters) for m, mod in inst.items()}
+        rep.case(("to_user", json.dumps([c["cls"], c["kids"]])), nontrivial=n >= 3)
+        try:
+            torch_nn_modules_to_user_modules(inst[1])
+        except Exception as ex:
+            rep.beyond(f"torch_nn_modules_to_user_modules raised {type(ex).__name__}: {str(ex)[:100]} on cls={c['cls']} kids={c['kids']}")
+            continue
+        obs = []
+
+        def walk(mod: nn.Module, path: List[str]) -> None:
+            obs.append((tuple(path), kind(mod), id(mod)))
+            for name, child in mod._modules.items():
+                walk(child, path + [name])
+
+        walk(inst[1], [])
+        if canon(obs) != canon([(tuple(e[0]), e[1], e[2]) for e in c["expect"]]):
+            bad += 1
+            rep.beyond(f"torch_nn_modules_to_user_modules on cls={c['cls']} kids={c['kids']}: unfolding {canon(obs)} != spec ToUser.tla {canon([(tuple(e[0]), e[1], e[2]) for e in c['expect']])}")
+            continue
+        # replacements subclass the original's class and share its state objects (the function computed is unchanged)
+        for (path, k, _), in zip(obs):
+            mod = inst[1]
+            for name in path:
+                mod = mod._modules[name]
+            if k == "triv":
+                olds = [o for (o, d, pp) in before.values() if d is mod._modules and pp is mod._parameters]
+                if not olds or not isinstance(mod, type(olds[0])):
+                    rep.beyond(f"torch_nn_modules_to_user_modules: replacement at {'.'.join(path)} does not share the original's state / subclass its type")
+    rep.extra["to_user_cases"] = len(cases)
+
+
 def tlc_histories(rep: Report, rng: random.Random, quick: bool) -> Tuple[List[List[Tuple[Any, ...]]], List[List[Tuple[Any, ...]]]]:
     """Direction A: histories generated by TLC from spec/Transforms_Gen.tla -- every maximal history with <= 3 modules and
     3 calls over {us, q2, track} (exhaustive mode), and random histories with <= 5 modules / 5 calls over all format kinds
@@ -324,6 +401,7 @@ def run(rep: Report, tier: str) -> None:
     jobs += [(fam[0], 0, h) for h in small]
     jobs += [(fam[i % len(fam)], i % len(fam), h) for i, h in enumerate(big)]
     play(rep, jobs)
+    to_user_cases(rep, quick)
     rep.rule = "histories of transforms and calls (both orders of unit_scale / format simulation in one history, calls between transforms, repeated calls, branching from earlier modules, track as last transform; thorough: 3 format kinds, compile, random histories) on a family of small modules; plus histories GENERATED BY TLC from Transforms_Gen (quick: 30 of the 1170 maximal histories with 3 modules x 3 calls; thorough: all of them and up to 400 simulated 5x5 histories); non-trivial = at least two transforms"
     rep.assumptions += ["'ran' is read off the library's own log records; fingerprints are sha1 of output + input gradient + parameter gradients with seeds pinned",
                         "compile (Inductor) only in the thorough tier"]
